@@ -279,6 +279,7 @@ fn events_hash(ev: &[Event]) -> u64 {
             Event::Expand { tid, input } => s.push_str(&format!("E{},{};", tid, input)),
             Event::Perturb { tid, n, seed } => s.push_str(&format!("P{},{},{};", tid, n, seed)),
             Event::Order { tid, policy, seed } => s.push_str(&format!("O{},{},{};", tid, policy, seed)),
+            Event::Addr => s.push_str("A;"),
         }
     }
     fnv64(s.as_bytes())
@@ -293,6 +294,7 @@ fn host_summary(h: &HostCfg) -> Value {
             Event::Expand { tid, input } => format!("expand(t{},i{})", tid, input),
             Event::Perturb { tid, n, .. } => format!("perturb(t{},{})", tid, n),
             Event::Order { tid, policy, seed } => format!("order(t{},p{},s{})", tid, policy, seed),
+            Event::Addr => "addr".to_string(),
         })
         .collect();
     json!({
@@ -571,6 +573,7 @@ fn hostcfg_to_json(h: &HostCfg) -> Value {
             Event::Expand { tid, input } => json!({"op": "expand", "tid": tid, "input": input}),
             Event::Perturb { tid, n, seed } => json!({"op": "perturb", "tid": tid, "n": n, "seed": seed.to_string()}),
             Event::Order { tid, policy, seed } => json!({"op": "order", "tid": tid, "policy": policy, "seed": seed.to_string()}),
+            Event::Addr => json!({"op": "addr", "tid": 0}),
         })
         .collect();
     json!({
@@ -612,6 +615,7 @@ fn hostcfg_from_json(v: &Value) -> Option<HostCfg> {
             "expand" => Event::Expand { tid, input: e["input"].as_u64()? as u32 },
             "perturb" => Event::Perturb { tid, n: e["n"].as_u64()? as u32, seed: e["seed"].as_str()?.parse().ok()? },
             "order" => Event::Order { tid, policy: e["policy"].as_u64()? as u8, seed: e["seed"].as_str()?.parse().ok()? },
+            "addr" => Event::Addr,
             _ => return None,
         });
     }
@@ -1041,6 +1045,29 @@ fn cmd_selftest(cfg: &Cfg) -> i32 {
         if x.iter().map(|l| &l.raw).ne(y.iter().map(|l| &l.raw)) {
             eprintln!("selftest: world {} produced different host logs in two executions", idx);
             bad += 1;
+        }
+    }
+    // address-space layout: identical for identical hosts (ASLR off), shifted by the env block
+    {
+        let texts: Vec<(u32, String)> = vec![(0, "#[map(A)] struct S { x: i32 }".to_string())];
+        let mut a = HostCfg::reference();
+        a.events = vec![Event::Expand { tid: 0, input: 0 }, Event::Addr];
+        let mut b = a.clone();
+        b.env = vec![("SIM_JUNK".to_string(), "j".repeat(3000))];
+        let mut c = a.clone();
+        c.events = vec![Event::Perturb { tid: 0, n: 200, seed: 7 }, Event::Expand { tid: 0, input: 0 }, Event::Addr];
+        let run = |h: &HostCfg| run_host(&env, Backend::Syn1, Build::Plain, &texts, h).map(|l| l.addrs.join(" "));
+        match (run(&a), run(&a), run(&b), run(&c)) {
+            (Ok(a1), Ok(a2), Ok(b1), Ok(c1)) => {
+                println!("selftest: layout: same host twice: {} / {}; larger env block: {}; after heap perturbation: {}", a1, a2, b1, c1);
+                if a1 != a2 {
+                    println!("selftest: WARNING: address-space randomisation is NOT off for hosts (personality refused?): the heap/layout fault is observed but not replayable in this environment");
+                }
+            },
+            _ => {
+                eprintln!("selftest: harness error in the layout probe");
+                return 2;
+            },
         }
     }
     println!("selftest: {} worlds x (1 worker, 16 workers) digests compared, {} worlds executed twice with full log diff: {} mismatches", n, n, bad);
